@@ -173,10 +173,20 @@ func (fx *FuncCtx) lock(st *State, mu Val, mode string, pos token.Pos) {
 	}
 	ref := mu.L.Ref
 	// havoc guarded state of this object
+	lastView := copyMap(st.heap)
 	fx.bumpTop(st)
 	fx.chanHavoc(st)
 	fx.havocMonitor(st, nt, md, ref)
 	// inhale invariants
+	fx.inhaleInvariants(st, nt, ref)
+	fx.inhaleRely(st, nt, ref, lastView)
+	st.atlock = copyMap(st.heap)
+	fx.canary(st, fmt.Sprintf("lock#%d", st.lockCount), pos)
+	lenv := fx.localsEnv(st, st.heap, map[string]string{})
+	fx.runGhost(st, "lock", lenv, pos)
+}
+
+func (fx *FuncCtx) inhaleInvariants(st *State, nt *types.Named, ref string) {
 	env := fx.specEnv(st, st.heap, st.heap)
 	for _, inv := range fx.eng.invariantsOf(nt) {
 		ne := env.with(map[string]Val{inv.Recv: {T: types.NewPointer(nt), C: []string{ref}}})
@@ -189,10 +199,36 @@ func (fx *FuncCtx) lock(st *State, mu Val, mode string, pos token.Pos) {
 		}
 		st.assume(t)
 	}
-	st.atlock = copyMap(st.heap)
-	fx.canary(st, fmt.Sprintf("lock#%d", st.lockCount), pos)
-	lenv := fx.localsEnv(st, st.heap, map[string]string{})
-	fx.runGhost(st, "lock", lenv, pos)
+}
+
+func (fx *FuncCtx) hasRole(role string) bool {
+	for _, r := range fx.fc.Roles {
+		if r == role {
+			return true
+		}
+	}
+	return false
+}
+
+// inhaleRely: a function acting in a role may assume that role's rely conditions between the state it saw last and
+// the state it finds when the monitor is entered again (by itself or by a callee).
+func (fx *FuncCtx) inhaleRely(st *State, nt *types.Named, ref string, lastView map[string]string) {
+	for _, rl := range fx.eng.reliesOf(nt) {
+		if !fx.hasRole(rl.Role) {
+			continue
+		}
+		env := fx.specEnv(st, st.heap, lastView)
+		ne := env.with(map[string]Val{rl.Recv: {T: types.NewPointer(nt), C: []string{ref}}})
+		ne.pkg = nt.Obj().Pkg()
+		var side []string
+		ne.side = &side
+		t := ne.boolTerm(rl.E)
+		for _, s := range side {
+			st.assume(s)
+		}
+		st.assume(t)
+		fx.trusted["role "+rl.Role+" of "+nt.Obj().Name()+": at most one goroutine per object acts in this role (rely `"+rl.Name+"` is guaranteed by every function under contract that does not act in the role; the uniqueness of the role holder is not checked)"] = true
+	}
 }
 
 func (fx *FuncCtx) havocMonitor(st *State, nt *types.Named, md *MonitorDecl, ref string) {
@@ -326,6 +362,22 @@ func (fx *FuncCtx) unlock(st *State, mu Val, pos token.Pos) {
 				st.assume(s)
 			}
 			fx.oblige(st, "inv", inv.Name, t, pos, inv.Src)
+		}
+		// guarantee: what this critical section did is within the rely of every role the function does not act in
+		for _, rl := range fx.eng.reliesOf(nt) {
+			if fx.hasRole(rl.Role) {
+				continue
+			}
+			renv := fx.specEnv(st, st.heap, st.atlock)
+			ne := renv.with(map[string]Val{rl.Recv: {T: types.NewPointer(nt), C: []string{ref}}})
+			ne.pkg = nt.Obj().Pkg()
+			var side []string
+			ne.side = &side
+			t := ne.boolTerm(rl.E)
+			for _, s := range side {
+				st.assume(s)
+			}
+			fx.oblige(st, "rely", rl.Role+"."+rl.Name, t, pos, rl.Src)
 		}
 	}
 	delete(st.held, key)
@@ -633,6 +685,7 @@ func (fx *FuncCtx) applyContract(st *State, callee *ssa.Function, fc *FuncContra
 	}
 	old := copyMap(st.heap)
 	topBefore := st.top()
+	var calleeAtlock map[string]string
 	if !fc.Pure {
 		fx.bumpTop(st)
 		fx.havocModifies(st, env, fc)
@@ -641,7 +694,14 @@ func (fx *FuncCtx) applyContract(st *State, callee *ssa.Function, fc *FuncContra
 			if nt := namedOf(callee.Signature.Recv().Type()); nt != nil {
 				if md := fx.eng.monitorOf(nt); md != nil && len(args[0].C) == 1 {
 					if st.held[args[0].s()+"."+md.Mutex] == "" {
+						// the callee enters the monitor: the state it finds (atlock in its contract) ...
 						fx.havocMonitor(st, nt, md, args[0].s())
+						fx.inhaleInvariants(st, nt, args[0].s())
+						fx.inhaleRely(st, nt, args[0].s(), old)
+						calleeAtlock = copyMap(st.heap)
+						// ... and the state it leaves
+						fx.havocMonitor(st, nt, md, args[0].s())
+						fx.inhaleInvariants(st, nt, args[0].s())
 					}
 				}
 			}
@@ -658,6 +718,9 @@ func (fx *FuncCtx) applyContract(st *State, callee *ssa.Function, fc *FuncContra
 	}
 	env2 := fx.calleeEnv(st, callee, fc, fnv, args, st.heap, old)
 	env2.entryTop = topBefore
+	if calleeAtlock != nil {
+		env2.atlock = calleeAtlock
+	}
 	rs := res.Tup
 	if rt != nil && res.Tup == nil {
 		rs = []Val{res}
